@@ -86,7 +86,7 @@ def run(env, tier, seed, broken=None):
         '%s f = 2;\n%s f() { %s 1; }\n%s f;\n' % (VAR, FUN, RETURN, PRINT),
         '%s a = 1;\n%s (a < 3) { %s b = a; a = a + 1; %s b; }\n' % (VAR, WHILE, VAR, PRINT),
     ]
-    Y = 'বয়স'        # contains U+09DF, which is not stable under NFC
+    Y = 'ব\u09dfস'        # contains U+09DF, which is not stable under NFC
     extra += [
         '%s %s = 21;\n{ %s %s = 10; %s %s; }\n%s %s;\n%s %s = 30;\n%s %s;\n' % (VAR, Y, VAR, Y, PRINT, Y, PRINT, Y, VAR, Y, PRINT, Y),
         '%s %s(%s) { %s %s; }\n%s %s(4);\n%s %s;\n' % (FUN, 'f' + Y, Y, RETURN, Y, PRINT, 'f' + Y, PRINT, 'f' + Y),
